@@ -35,8 +35,8 @@ func Explore(ctx *vrun.Ctx, u *Universe, coverage, withMining bool) (*Model, *tl
 		base = "Mining"
 		cfgTail = extra + mempoolCfgTail + "INVARIANT AlgoSound\nINVARIANT AlgoComplete\n"
 	}
-	if ctx.Thorough && len(u.Txs) <= 5 {
-		cfgTail += "PROPERTY RejectedUnchanged\n"
+	if ctx.Thorough && len(u.Scripted) == 0 && !strings.HasPrefix(u.Name, "rand") {
+		cfgTail += "PROPERTY RejectedUnchanged\n" // costs a factor 2-3 in TLC time
 	}
 	tlaText, cfgText := u.Module(mod, base, c, defs, cfgTail)
 	// A scripted universe is a single deterministic schedule: its graph is rebuilt from the
@@ -123,8 +123,8 @@ type uniResult struct {
 }
 
 func runBoth(ctx *vrun.Ctx, mining bool) error {
-	if ctx.Replay != "" {
-		return fmt.Errorf("--replay: re-run the tier with the seed recorded in the replay file (the file holds the universe and the abstract trace)")
+	if os.Getenv("VERIF_ONLY_RACE") == "" && ctx.Replay != "" {
+		return runReplayFile(ctx, mining)
 	}
 	if os.Getenv("VERIF_ONLY_RACE") != "" { // debugging aid
 		return RunRaceDetector(ctx)
@@ -146,7 +146,7 @@ func runBoth(ctx *vrun.Ctx, mining bool) error {
 			r := &results[i]
 			tlcSem <- struct{}{}
 			t0 := time.Now()
-			m, res, err := Explore(ctx, u, ctx.Thorough, mining)
+			m, res, err := Explore(ctx, u, false, mining) // -coverage is not used: the vacuity audit reads the edge labels of the dumped graphs
 			<-tlcSem
 			if err != nil {
 				r.err = err
